@@ -110,7 +110,21 @@ func (a *AMF) buildNGSetupResponse() ([]byte, error) {
 	for i := 0; i < c.ExtraSlices; i++ {
 		it.SliceSupportList.List = append(it.SliceSupportList.List, ngapType.SliceSupportItem{SNSSAI: ngapSNSSAI(byte(2+i), nil)})
 	}
-	ie.Value.PLMNSupportList = &ngapType.PLMNSupportList{List: []ngapType.PLMNSupportItem{it}}
+	other := func(i int) ngapType.PLMNSupportItem {
+		// a PLMN that differs from the gNB's in every octet
+		o := ngapType.PLMNSupportItem{PLMNIdentity: plmnOS([3]byte{a.plmn[0] ^ 0x11, a.plmn[1] ^ byte(0x10+i), a.plmn[2] ^ 0x01})}
+		o.SliceSupportList.List = append(o.SliceSupportList.List, ngapType.SliceSupportItem{SNSSAI: ngapSNSSAI(byte(1+i), nil)})
+		return o
+	}
+	var items []ngapType.PLMNSupportItem
+	for i := 0; i < c.PLMNsBefore; i++ {
+		items = append(items, other(i))
+	}
+	items = append(items, it)
+	for i := 0; i < c.PLMNsAfter; i++ {
+		items = append(items, other(6+i))
+	}
+	ie.Value.PLMNSupportList = &ngapType.PLMNSupportList{List: items}
 	l.List = append(l.List, ie)
 	return encodePDU(p)
 }
